@@ -134,7 +134,8 @@ Qed.
 Lemma live_bounds : forall m c, live m c = true ->
   0 <= fst c < pm_width m /\ 0 <= snd c < pm_height m /\ ~ In c (pm_dead m).
 Proof.
-  intros m c H. unfold live in H. rewrite !andb_true_iff in H.
+  intros m [x y] H. unfold live, Rig.Generated.GenPlaceShape.gen_machine_contains in H. cbn [fst snd] in *.
+  rewrite !andb_true_iff in H.
   destruct H as [[[[H1 H2] H3] H4] H5].
   apply Z.leb_le in H1. apply Z.ltb_lt in H2. apply Z.leb_le in H3. apply Z.ltb_lt in H4.
   apply negb_true_iff in H5.
